@@ -244,6 +244,19 @@ class Planner:
                 steps.append(_ex(rng, bp, mode="check"))
         self.add("annot_conflict", rng, steps, self.init_cache(rng))
 
+    def stale_access_log(self, i):
+        """history = previous runs of OTHER blueprints of the same project: a blueprint that uses the path
+        dependency runs first (the project's access log now lists the dependency), the dependency then gains
+        an annotation conflict, and a blueprint that does NOT use the dependency at all runs twice, then --check.
+        Its verdict and bytes are a function of the blueprint and the sources it uses — not of what an earlier
+        run of another blueprint touched"""
+        rng = self.rng("stale_access_log", i)
+        user = rng.choice(sorted(b for b in self.corpus["blueprints"] if self.corpus["blueprints"][b].get("dep_routes")))
+        loner = "v01_min"
+        steps = [_ex(rng, user), {"op": "edit", "proj": "p0", "edit": "dep_dup_id"}, _ex(rng, loner, diag=_diag_gen(rng)), _ex(rng, loner),
+                 _ex(rng, loner, mode="check")]
+        self.add("stale_access_log", rng, steps, "warm")
+
     def inline_ws(self, i):
         """the root manifest spells its [workspace] section as one inline table (legal TOML, same content):
         generate, generate again, --check"""
@@ -464,6 +477,8 @@ class Planner:
                 self.evict(i)
             for i in range(3 if q else 30):
                 self.save_during_run(i)
+            for i in range(2 if q else 12):
+                self.stale_access_log(i)
             for i in range(6 if q else 72):
                 self.fault(i)
             for i in range(1 if q else 4):
